@@ -482,8 +482,13 @@ class Driver:
         r = rng.random()
         if r < 0.3:
             return {"ev": rng.choice(["key_press", "key_release"]), "key": rng.choice(["a", "control", "alt", "escape", "s"])}
-        if r < 0.5:
+        if r < 0.45:
             return {"ev": "resize", "w": round(rng.uniform(6, 14), 2), "h": round(rng.uniform(3.5, 8), 2)}
+        if r < 0.65:
+            # toolbar zoom / pan: a new view; later clicks map through the new transform
+            a, b = sorted([round(rng.uniform(-0.2, 0.5), 3), round(rng.uniform(0.5, 1.2), 3)])
+            c, d = sorted([round(rng.uniform(-0.3, 0.5), 3), round(rng.uniform(0.5, 1.3), 3)])
+            return {"ev": "zoom", "fx": [a, b], "fy": [c, d]}
         e = {"ev": rng.choice(["motion", "release", "scroll"]), "mods": ["shift"] if self.phys_shift else []}
         e.update(self._gen_click_xy())
         return e
@@ -586,6 +591,14 @@ class Driver:
             elif kind == "resize":
                 tksim.resize(canvas, e["w"], e["h"])
                 self.inc("probe.resize")
+            elif kind == "zoom":
+                ax = self.ax()
+                x0, x1 = ax.get_xlim()
+                y0, y1 = ax.get_ylim()
+                ax.set_xlim(x0 + e["fx"][0] * (x1 - x0), x0 + e["fx"][1] * (x1 - x0))
+                ax.set_ylim(y0 + e["fy"][0] * (y1 - y0), y0 + e["fy"][1] * (y1 - y0))
+                canvas.draw_idle()
+                self.inc("probe.zoom")
             elif kind == "menu":
                 cmd = self.commands.get(e["label"])
                 if e.get("fault"):
